@@ -443,8 +443,16 @@ func runCKKSEncoder(c *eng.Ctx, cfg pcfg, prec uint) {
 	for _, lvl := range []int{p.MaxLevel(), 1, 0} {
 		for _, batched := range []bool{true, false} {
 			for _, kind := range kinds {
-				for _, n := range []int{p.MaxSlots(), p.MaxSlots() / 4} {
+				for _, n := range []int{p.MaxSlots(), p.MaxSlots() / 4, -p.MaxSlots() / 4} {
 					lvl, batched, kind, n := lvl, batched, kind, n
+					// n < 0: the sparse vector again, into a plaintext outside the NTT domain
+					isNTT := n > 0
+					if n < 0 {
+						n = -n
+						if !batched {
+							continue
+						}
+					}
 					if !batched && kind != "[]float64" && kind != "[]*big.Float" {
 						continue // documented: coefficient encoding accepts real slices only
 					}
@@ -453,6 +461,9 @@ func runCKKSEncoder(c *eng.Ctx, cfg pcfg, prec uint) {
 						logSlots.Cols -= 2
 					}
 					variant := fmt.Sprintf("lvl%d/batched=%v/%s/n%d", lvl, batched, kind, n)
+					if !isNTT {
+						variant += "/outside-ntt"
+					}
 					mkPt := func(dirty bool) *rlwe.Plaintext {
 						var pt *rlwe.Plaintext
 						if dirty {
@@ -461,6 +472,7 @@ func runCKKSEncoder(c *eng.Ctx, cfg pcfg, prec uint) {
 							pt = rlwe.NewPlaintext(p, lvl)
 						}
 						pt.IsBatched = batched
+						pt.IsNTT = isNTT
 						pt.Scale = p.DefaultScale()
 						pt.LogDimensions = logSlots
 						return pt
